@@ -93,6 +93,17 @@ package gateway
 //@   property C26
 //@   nopanic
 
+// Get (property C26): index safety for every request message, in particular a swamp entry whose
+// key list is empty (keys[0] used to be read after a nil-only test).
+// Assumed: the engine hands out a record exactly when it reports no error.
+//@ trusted func (github.com/hydraide/hydraide/app/core/hydra/swamp.Swamp).GetTreasure(s, key) (t, err)
+//@   ensures err == nil ==> t != nil
+//@ func (Gateway).Get(g, ctx, in) (resp, err)
+//@   property C26
+//@   nopanic idx slice
+//@   requires[request] in != nil
+//@   modifies *
+
 //@ func (Gateway).DeRegisterSwamp(g, ctx, in) (resp, err)
 //@   property C26
 //@   modifies *
